@@ -34,6 +34,10 @@ pub fn special_texts() -> Vec<String> {
         "_1_000".into(), "$_1_000".into(), "x_start".into(), "start_".into(), "$x_enum".into(), "$enum_".into(), "structenum".into(), "_terminal".into(), "terminal_".into(), "r#type".into(),
         "_ _".into(), "__".into(), "$__".into(), "_0".into(), "$_0".into(), "a$b".into(), "$a$b".into(), "a#b".into(), "a/b".into(), "a//b".into(), "$a//b".into(), "::a//".into(),
     ];
+    // the shape of the generator's own output header in front of a grammar
+    v.push("// x\n// @sha256 e3b0c44298fc1c149afbf4c8996fb92427ae41e4649b934ca495991b7852b855\nstart S\nstruct S\nterminal T {}\n".to_string());
+    v.push("// @sha256 E3B0C44298FC1C149AFBF4C8996FB92427AE41E4649B934CA495991B7852B855\r\nstart S".to_string());
+    v.push("// @sha256 e3b0c44298fc1c149afbf4c8996fb92427ae41e4649b934ca495991b7852b855".to_string());
     for n in [63usize, 64, 65, 127, 128, 129, 255, 256, 257, 1023, 1024, 1025, 4095, 4096, 4097] {
         v.push(format!("I{}", "x".repeat(n - 1)));
         v.push(format!("$T{}", "y".repeat(n - 2)));
